@@ -335,6 +335,17 @@ package httpgrpc
 
 // ---- Channel.Invoke / Channel.NewStream (client.go): C13, C12, C04, C02 ----
 //
+// The goroutine of a unary call: reads the whole reply body, closes it, and signals
+// completion by closing respCh exactly once (C05: nothing is left open, nobody waits forever).
+//@ closure (*Channel).Invoke.go#1
+//@   requires respCh != nil && !closed(respCh)
+//@   sole_closer respCh
+//@   ensures[C05] completion_is_signalled_exactly_once: closed(respCh)
+//@   ensures[C05,C01] reads_the_whole_reply_body_once_and_closes_it: calls("ioutil.ReadAll") == 1 && calls("io.ReadCloser.Close") == 1
+//@   assert_call[C01] ioutil.ReadAll : of_the_reply_body: arg0 == reply.Body
+//@   assert_call[C05] io.ReadCloser.Close : the_reply_body_after_reading: arg0 == reply.Body && called("ioutil.ReadAll")
+//@   modifies everything
+//
 //@ func (*Channel).Invoke
 //@   assert_call[C12] path.Join : base_path_then_method: len(arg0) == 2 && arg0[0] == ch.BaseURL.Path && arg0[1] == methodName
 //@   assert_call[C13] internal.ApplyPerRPCCreds : credentials_checked_against_the_url_scheme: arg0 == ctx$entry && arg1 == lastresult("internal.GetCallOptions") && arg2 == lastresult("(*url.URL).String") && (arg3 <==> reqUrl.Scheme == "https") && reqUrl.Scheme == old(ch.BaseURL.Scheme)
